@@ -194,3 +194,104 @@ def _eval_single(excel, i, terr, overrides, timeout):
             raise
         return ('texc', e)
     return _eval_cell(klass, Cell(0, 25, i), overrides)
+
+
+class Probe:
+    """A workbook translated once: formulas live in column Z (index 25) of sheet 0, one per row;
+    consts: {(c,r): v} on sheet 0 (or {(s,c,r): v} with extra_sheets). Each evaluation uses a
+    fresh Executor with one set_cells batch of overrides (isolation rule, DESIGN 2.3)."""
+
+    def __init__(self, formulas, consts=None, sheets=None, timeout=20.0, col=25):
+        cells = dict(consts or {})
+        self.formulas = list(formulas)
+        self.col = col
+        for i, f in enumerate(self.formulas):
+            cells[(col, i)] = f
+        all_sheets = [('S', cells)] + list(sheets or [])
+        self.excel = mem_excel(all_sheets)
+        ctx = Context()
+        ctx._titles = self.excel.get_titles()
+        ctx._sheets_size = self.excel.get_sheets_size()
+        self.terr = []
+        for i in range(len(self.formulas)):
+            saved = (dict(ctx._cell_translations), {k: list(v) for k, v in ctx._sub_cell_translations.items()})
+            try:
+                with_timeout(timeout, CellTranslator.translate, Cell(0, col, i), self.excel, ctx)
+                self.terr.append(None)
+            except BaseException as e:  # noqa
+                if isinstance(e, (KeyboardInterrupt, SystemExit)):
+                    raise
+                ctx._cell_translations, ctx._sub_cell_translations = saved
+                self.terr.append(e)
+        self.text = ctx.build_class()
+        try:
+            self.klass = load_class(self.text)
+            self.load_err = None
+        except BaseException as e:  # noqa
+            self.klass = None
+            self.load_err = e
+
+    def eval(self, overrides=None, idxs=None):
+        """overrides: list of (sheet, col, row, value). Returns list of ('val'|'eexc'|'texc', payload)."""
+        idxs = range(len(self.formulas)) if idxs is None else idxs
+        if self.klass is None:
+            return [('texc', self.load_err) for _ in idxs]
+        ov = [Cell(o[0], o[1], o[2], o[3]) for o in overrides] if overrides else None
+        out = []
+        try:
+            ex = fresh_executor(self.klass, ov)
+        except BaseException as e:  # noqa
+            if isinstance(e, (KeyboardInterrupt, SystemExit)):
+                raise
+            return [('eexc', e) for _ in idxs]
+        for i in idxs:
+            if self.terr[i] is not None:
+                out.append(('texc', self.terr[i]))
+                continue
+            try:
+                out.append(('val', ex.get_cell(Cell(0, self.col, i)).value))
+            except BaseException as e:  # noqa
+                if isinstance(e, (KeyboardInterrupt, SystemExit)):
+                    raise
+                out.append(('eexc', e))
+        return out
+
+    def eval_at(self, overrides, cells):
+        """Evaluate arbitrary (sheet,col,row) cells."""
+        ov = [Cell(o[0], o[1], o[2], o[3]) for o in overrides] if overrides else None
+        ex = fresh_executor(self.klass, ov)
+        out = []
+        for (s, c, r) in cells:
+            try:
+                out.append(('val', ex.get_cell(Cell(s, c, r)).value))
+            except BaseException as e:  # noqa
+                if isinstance(e, (KeyboardInterrupt, SystemExit)):
+                    raise
+                out.append(('eexc', e))
+        return out
+
+
+def public_path_eval(scratch, sheets, cells, overrides=None, tag='pp'):
+    """The path the properties name: xlsx -> Parser.write_translation -> Executor(class_file).
+    sheets: [(title, {(c,r): v})]; cells: [(s,c,r)]. Returns list of ('val'|'eexc'|'texc', payload)."""
+    x = os.path.join(scratch, tag + '.xlsx')
+    p = os.path.join(scratch, tag + '_gen.py')
+    try:
+        write_xlsx(x, sheets)
+        Parser().set_excel_file_path(x).write_translation(p)
+        ex = Executor().set_executed_class(class_file=p)
+    except BaseException as e:  # noqa
+        if isinstance(e, (KeyboardInterrupt, SystemExit)):
+            raise
+        return [('texc', e) for _ in cells]
+    if overrides:
+        ex.set_cells([Cell(o[0], o[1], o[2], o[3]) for o in overrides])
+    out = []
+    for (s, c, r) in cells:
+        try:
+            out.append(('val', ex.get_cell(Cell(s, c, r)).value))
+        except BaseException as e:  # noqa
+            if isinstance(e, (KeyboardInterrupt, SystemExit)):
+                raise
+            out.append(('eexc', e))
+    return out
